@@ -170,6 +170,8 @@ def s2_s5_line_walk(ck):
     # the walk ends only where there is nothing more to follow: at the depth limit, at a position without an entry, or when the stored
     # move cannot be applied.  Any further reason to stop (e.g. the kind of the entry) can cut the line at the root and leave nothing
     # to report although the root has an entry and a legal move.
+    from .c04 import walk_counters, limit_test
+    counters, written = walk_counters(paths)
     nones = [p for p in paths if p.ret == ("agg", "core::option::Option::None", ()) or (p.ret[0] == "call" and p.ret[1].endswith("::from_residual"))]
     ck.floor("S2", len(nones), 2, "ending paths of the principal-line iterator")
     for p in nones:
@@ -179,7 +181,7 @@ def s2_s5_line_walk(ck):
         if last is not None:
             c, tk = last
             why = "%s = %s" % (show(c)[:100], tk)
-            if c[0] == "bin" and c[1] in ("Gt", "Ge", "Lt", "Le") and any(x == ("field", SELF, "current_index") for x in (c[2], c[3])) and any(x == ("field", SELF, "max_depth") for x in (c[2], c[3])):
+            if limit_test(c, tk, counters, written) == "beyond":
                 ok = True      # depth limit
             elif c[0] == "discr" and is_call(c[1], ACCESS + "::find") and tk in (0, ("else", (1,))):
                 ok = True      # no entry for this position
